@@ -53,8 +53,9 @@ CFG = dict(
          "length <= 3 (thorough 4) containing a tick + a final 60 s tick; one key's consumer not reading (run loop parked in its hand-off) while "
          "another key has traffic x {Cancel of either key, Stop, write on either connection, blocked shared transport, tick} at EVERY position, "
          "also with a blocked shared write in progress; key NAMES that collide under concatenation, are prefixes of one another or empty "
-         "('' c-1 c-11 12 c-112: all sequences of length <= 3, Cancel at every step); the all-default envelope Rpc{} / no body / zero-byte body "
-         "through every key function; "
+         "('' c-1 c-11 12 c-112: all sequences of length <= 3, Cancel at every step); the all-default envelope Rpc{} / no body / zero-byte body / reset-only / bare trailer / "
+         "status + trailer without body / body without header through every key function, as the FIRST envelope of a never-used key and of a "
+         "key that was used and cancelled, with Cancel at every step; "
          "end-to-end: 2..5 real clients - one shared transport - real Demux keyed by source - one real Server object, unary + bidi + "
          "client-stream + server-stream RPCs compared with the direct-connection outcomes",
     assumptions=["payloads and keys are opaque to the Demux (tokens); the key function and the callback return",
